@@ -199,4 +199,5 @@ func runC01(e *Engine, r *Report) {
 	ruleReadRelease(e, r)
 	ruleConfirmPrefix(e, r)
 	ruleReadBatchCopy(e, r)
+	ruleReadyKeyedByCtx(e, r)
 }
